@@ -456,3 +456,118 @@ Fixpoint tags_ok (e : node) : bool :=
 
 Definition wf_expr (e : node) : bool :=
   tags_ok e && framed_ok (to_pnode e) && root_ok (to_pnode e).
+
+(* ------------------------------------------------------------------------------------------ *)
+(* The exact text of format_node (format.py:98-159): tokens AND the white space between them   *)
+(* ------------------------------------------------------------------------------------------ *)
+(* A text is a list of pieces: tokens and fillers.  [fmtx inline p indent wrapped] is
+   format_node(p, ' ' * indent, inline, is_root=False, wrapped); the line-width rule (line_size = 100)
+   decides between one space and newline + indentation.  Lengths are Python's len() of the strings
+   (all characters the formatter emits are ASCII). *)
+Inductive piece : Type :=
+| PT (t : token)
+| PG (f : filler).
+
+Definition render_piece (pc : piece) : bytes :=
+  match pc with PT t => render_token t | PG f => render_filler f end.
+Definition render_pieces (ps : list piece) : bytes := flat_map render_piece ps.
+Definition plen (ps : list piece) : nat := List.length (render_pieces ps).
+Definition tokens_of (ps : list piece) : list token :=
+  flat_map (fun pc => match pc with PT t => [t] | PG _ => [] end) ps.
+
+Definition sp : piece := PG (FWs c_sp).
+Definition nl_indent (k : nat) : list piece := PG (FWs c_lf) :: repeat sp k.
+
+Fixpoint join_pieces (sep : list piece) (items : list (list piece)) : list piece :=
+  match items with
+  | [] => []
+  | [x] => x
+  | x :: r => x ++ sep ++ join_pieces sep r
+  end.
+
+Definition sum_plen (l : list (list piece)) : nat := fold_right (fun x acc => plen x + acc) 0 l.
+
+Definition line_size : nat := 100.
+
+Fixpoint is_prefix (a b : bytes) : bool :=
+  match a, b with
+  | [], _ => true
+  | x :: a', y :: b' => byte_eqb x y && is_prefix a' b'
+  | _ :: _, [] => false
+  end.
+(* is_complex: LAMBDA or IF...;  is_inline: PUSH *)
+Definition is_complex (n : bytes) : bool := bytes_eqb n (tx "LAMBDA") || is_prefix (tx "IF") n.
+Definition is_inline (n : bytes) : bool := bytes_eqb n (tx "PUSH").
+
+Fixpoint fmtx (inline : bool) (p : pnode) (indent : nat) (wrapped : bool) {struct p} : list piece :=
+  match p with
+  | PInt r => [PT (TInt r)]
+  | PStr r => [PT (TStr r)]
+  | PByt r => [PT (TByt r)]
+  | PSeq items =>
+      let seq_indent := indent + 2 in
+      let its := map (fun x => fmtx inline x seq_indent true) items in
+      match its with
+      | [] => [PT TLCurly; PT TRCurly]
+      | _ =>
+          let len := indent + sum_plen its + 4 in
+          let sep := if inline || (len <? line_size) then [sp; PT TSemi; sp]
+                     else sp :: PT TSemi :: nl_indent seq_indent in
+          PT TLCurly :: sp :: join_pieces sep its ++ [sp; PT TRCurly]
+      end
+  | PPrim n annots args =>
+      let head := PT (TPrim n) :: flat_map (fun a => [sp; PT (TAnnot a)]) annots in
+      let body :=
+        if is_complex n then
+          let ai := indent + 2 in
+          let its := map (fun x => fmtx inline x ai false) args in
+          let len := indent + plen head + sum_plen its + List.length its + 1 in
+          if inline || (len <? line_size) then head ++ sp :: join_pieces [sp] its
+          else join_pieces (nl_indent ai) (head :: its)
+        else
+          match args with
+          | [] => head
+          | [a] => head ++ sp :: fmtx inline a (indent + (plen head + 1)) false
+          | _ =>
+              let alt_indent := indent + (plen head + 2) in
+              (fix loop (l : list pnode) (expr : list piece) (ai : nat) {struct l} : list piece :=
+                 match l with
+                 | [] => expr
+                 | a :: r =>
+                     let item := fmtx inline a ai false in
+                     let len := indent + plen expr + plen item + 1 in
+                     if inline || is_inline n || (len <? line_size)
+                     then loop r (expr ++ sp :: item) alt_indent
+                     else loop r (expr ++ nl_indent ai ++ item) ai
+                 end) args head (indent + 2)
+          end in
+      if is_framed n (nonempty annots) && negb wrapped then PT TLParen :: body ++ [PT TRParen] else body
+  end.
+
+(* format_node(p, inline=inline, is_root=True) *)
+Definition fmtx_root (inline : bool) (p : pnode) : list piece :=
+  match p with
+  | PSeq items =>
+      if is_script items && nonempty items then
+        let its := map (fun x => fmtx inline x 0 true) items in
+        let len := sum_plen its + 4 in
+        let sep := if inline || (len <? line_size) then [PT TSemi; sp] else PT TSemi :: nl_indent 0 in
+        join_pieces sep its
+      else fmtx inline p 0 true
+  | _ => fmtx inline p 0 true
+  end.
+
+(* micheline_to_michelson(e, inline) *)
+Definition format_text (inline : bool) (e : node) : bytes :=
+  render_pieces (fmtx_root inline (to_pnode e)).
+
+(* when may tokens touch: [pok prev seen ps] — [prev] the previous token, [seen] whether a filler
+   came after it *)
+Fixpoint pok (prev : option token) (seen : bool) (ps : list piece) : bool :=
+  match ps with
+  | [] => true
+  | PG f :: r => wf_filler f && pok prev true r
+  | PT t :: r =>
+      (seen || match prev with None => true | Some p => is_punct p || is_punct t end)
+      && pok (Some t) false r
+  end.
